@@ -132,6 +132,7 @@ where
         let keep_alive = pkt.keep_alive;
         let max_packet_size = pkt.max_packet_size.map_or(0, NonZero::get);
         let max_receive = pkt.receive_max.map_or(65535, NonZero::get);
+        let max_topic_alias = pkt.topic_alias_max;
         let pool = self.pool.clone();
 
         let codec = codec::Codec::new();
@@ -164,6 +165,7 @@ where
                         shared,
                         pkt,
                         max_receive,
+                        max_topic_alias,
                         Seconds(keep_alive),
                         self.cfg.clone(),
                     ))
